@@ -150,6 +150,19 @@ Theorem C10_agree_sound_x ce batch steps : c10 ce batch steps = Agree -> oracle_
 Proof. exact (c10_agree_sound_x ce batch steps). Qed.
 Print Assumptions C10_agree_sound_x.
 
+(* clauses 13 and 14 (ChkQ.p_c10y; model-independent; outside C10_model_ok):
+   13: within one body / one App-level batch all foreign queries see one state, so a smart query to c is served by
+       the code (log entry RQuery .. tag) that ContractInfo names for c, and no handler runs for an address
+       ContractInfo does not know — in particular after a failed call and after a caught failure (the code of a
+       rolled-back migration / instantiation must not answer);
+   14: Supply / Balance answers of the App-level batch equal the ledger decoded from the raw store after the call
+       (Bank.bank_supply / bank_balance, C09), a Supply answer in the root body of the next call equals the ledger
+       before it — state kept OUTSIDE storage must not survive a rollback.
+   An Agree verdict implies they held of the implementation's observations: *)
+Theorem C10_agree_sound_y ce batch steps : c10 ce batch steps = Agree -> oracle_qy ce batch None steps 0 = None.
+Proof. exact (c10_agree_sound_y ce batch steps). Qed.
+Print Assumptions C10_agree_sound_y.
+
 (* C10_model_ok above covers clauses 5-8.  Of the further clauses, these two are proved of the model for ALL
    inputs.  Clause 10 (the same walk for every program of the tree, found in the log by its node number),
    clause 11 (a later node's raw / smart query on c sees what the last completed body of c left: parent body ->
@@ -286,3 +299,18 @@ Example further_clauses_run :
 Proof.
   cbn zeta. repeat (split; [vm_compute; reflexivity|]). split; [repeat constructor|]. intros k x H. discriminate.
 Qed.
+
+(* clauses 13 / 14 on forged App-level batches: contract b is registered with code 1 (tag 101) but a handler with tag
+   107 answers; contract-info does not know d but a handler answers for it; the supply answer differs from the
+   ledger in the raw store *)
+Example rollback_clauses_run :
+  let batch := QACons (QInfo [98]) (QACons (QSmart [98] (QProg 8 QANil (Some [1]))) (QACons (QSupply [117]) QANil)) in
+  let mk tr := {| q_step := {| st_blk := blk ex_env; st_op := TMint [97] []; st_trace := []; st_outcome := Err; st_state := ex_state;
+                               st_other := 0; st_raw_same := true |};
+                  q_tr1 := tr; q_tr2 := tr; q_same1 := true; q_same2 := true; q_ext1 := []; q_ext2 := [] |} in
+  let info := RObs 0 (VInfo (Some (1, [97], None))) in
+  p_c10y ex_ce batch None (mk (app_queries ex_env ex_state batch)) = None /\
+  p_c10y ex_ce batch None (mk [info; RQuery 8 [98] (blk ex_env) 107; RObs 0 (VSmart (Some [1])); RObs 0 (VAmount (Some 55))]) = Some 13 /\
+  p_c10y ex_ce batch None (mk [RObs 0 (VInfo None); RQuery 8 [98] (blk ex_env) 101; RObs 0 (VSmart (Some [1])); RObs 0 (VAmount (Some 55))]) = Some 13 /\
+  p_c10y ex_ce batch None (mk [info; RQuery 8 [98] (blk ex_env) 101; RObs 0 (VSmart (Some [1])); RObs 0 (VAmount (Some 48))]) = Some 14.
+Proof. vm_compute. auto. Qed.
